@@ -23,6 +23,8 @@
 EXTENDS DrawPath, DrawGeom, IOUtils
 
 CONSTANTS NodeTol,     \* units of 1e-10 radius: nodes of an arc on the exact circle
+          NodeTolHP,   \* the same in the half-plane, where the code derives the circle from half-plane coordinates of
+                       \* IDEAL points (a square root at the boundary: rounding 1e-16 shows as 1e-8)
           CurveTol     \* units of 1e-6 radius: Bezier approximation of a circle by matplotlib
 
 VARIABLES tid, l
@@ -45,7 +47,7 @@ PieceOK(ev) ==
       y == TrV(Nxt(e))
   IN /\ DgDefined(Tr.model, x) /\ DgDefined(Tr.model, y)
      /\ ev.kind = DgPieceKind(Tr.model, x, y)
-     /\ ev.kind = "arc" => /\ ev.devn <= NodeTol /\ ev.devc <= CurveTol
+     /\ ev.kind = "arc" => /\ ev.devn <= (IF Tr.model = "halfplane" THEN NodeTolHP ELSE NodeTol) /\ ev.devc <= CurveTol
                            /\ ev.inside /\ ev.minor
 
 Step(ev) ==
